@@ -28,7 +28,7 @@ ANCHORS = [("leuvenmapmatching/matcher/base.py", "BaseMatcher._build_node_path")
            ("leuvenmapmatching/matcher/base.py", "LatticeColumn.values_all"),
            ("leuvenmapmatching/matcher/base.py", "LatticeColumn.prune"),
            ("leuvenmapmatching/matcher/base.py", "BaseMatching.update")]
-FLOORS = {"cases_compared_across_processes": 800, "cases_with_two_final_candidates": 400, "permutations_judged": 1500,
+FLOORS = {"linked_tie_cases": 100, "linked_tie_cases_string_labels": 60, "cases_compared_across_processes": 800, "cases_with_two_final_candidates": 400, "permutations_judged": 1500,
           "final_column_with_nonemitting_layer": 40, "exact_tie_in_final_column": 50, "string_label_cases": 300, "mirror_loop_cases": 300, "diamond_cases": 300, "diamond_cases_with_nonemitting_on_path": 150, "nonemitting_state_with_exactly_tied_predecessors": 100}
 ASSUMPTIONS = ["hash-seed clause: canonical results (returned states, index, keys and log-probabilities of the best path) must be IDENTICAL across processes",
                "permutation clause: index and best probability equal (1e-9); paths may differ only through an exact tie: equal totals, or equal probability of the two alternatives at the first position where the paths diverge (what follows - e.g. the trailing non-emitting states after an early stop - is a consequence of that choice)"]
@@ -116,7 +116,42 @@ def gen_diamond_case(rng):
     return {"map": m, "trace": tr, "cfg": cfg, "unique": rng.random() < 0.5, "diamond": True}
 
 
+def gen_linked_tie_case(rng):
+    """a road whose end is linked (InMemMap linked_edges, list or set valued) to two or three parallel carriageways that lie
+    mirror-symmetrically around the trace: exactly equally probable linked moves.  Mostly string labels."""
+    u = rng.choice([1.0, 2.0, 0.5])
+    names = ["a", "b", "c", "d", "e", "f", "g", "h"]
+    ids = rng.sample(range(1, 90), len(names))
+    style = rng.choice(["str", "str", "str2", "int"])
+    lab = {n: (v if style == "int" else ("N%d" % v if style == "str" else "node_%03d_x" % v)) for n, v in zip(names, ids)}
+    off = rng.choice([1.0, 1.5, 2.0])
+    pts = {"a": (0.0, 0.0), "b": (0.0, 10.0), "c": (off, 12.0), "d": (off, 22.0), "e": (-off, 12.0), "f": (-off, 22.0)}
+    edges = [("a", "b"), ("c", "d"), ("e", "f")]
+    linked = [[["a", "b"], ["c", "d"]], [["a", "b"], ["e", "f"]]]
+    if rng.random() < 0.4:
+        pts.update({"g": (0.0, 12.0 + rng.choice([0.0, 1.0])), "h": (3 * off, 22.0)})
+        edges.append(("g", "h"))
+        linked.append([["a", "b"], ["g", "h"]])
+    if rng.random() < 0.5:
+        linked = [linked[k] for k in rng.sample(range(len(linked)), len(linked))]
+    rng.shuffle(edges)
+    nodes = [[lab[k], [v[0] * u, v[1] * u]] for k, v in pts.items()]
+    rng.shuffle(nodes)
+    m = {"nodes": nodes, "edges": [[lab[a], lab[b]] for a, b in edges], "latlon": False, "kind": "linked_tie",
+         "linked": [[[lab[a], lab[b]], [lab[c], lab[d]]] for (a, b), (c, d) in linked]}
+    tr = [[0.0, 5.0 * u], [0.0, rng.choice([15.0, 17.0]) * u]]
+    if rng.random() < 0.5:
+        tr.append([0.0, 20.0 * u])
+    cfg = gen.gen_cfg(rng, families=("distance", "simple", "newsonkrumm"), ne=(rng.random() < 0.4), width="maybe", cut=False)
+    cfg["obs_noise"] = 2.0 * u
+    cfg["max_dist"] = 8.0 * u
+    cfg["max_dist_init"] = rng.choice([None, 6.0 * u])
+    return {"map": m, "trace": tr, "cfg": cfg, "unique": rng.random() < 0.5, "linked_tie": True}
+
+
 def gen_case(rng, i, tier):
+    if i % 12 == 7:
+        return gen_linked_tie_case(rng)
     if i % 6 == 1:
         return gen_mirror_case(rng)
     if i % 6 == 4:
@@ -217,6 +252,10 @@ def check_case(ctx, case):
         ctx.count("diamond_cases")
         if any(x.obs_ne for x in (mt.lattice_best or [])):
             ctx.count("diamond_cases_with_nonemitting_on_path")
+    if case.get("linked_tie"):
+        ctx.count("linked_tie_cases")
+        if any(isinstance(l, str) for l, _ in case["map"]["nodes"]):
+            ctx.count("linked_tie_cases_string_labels")
     if case.get("mirror"):
         ctx.count("mirror_loop_cases")
         if mt.lattice:
@@ -376,6 +415,9 @@ def finalize(fold):
 _dbg_gen, _dbg_chk = env.debug_dimension(0.1)
 gen_case = _dbg_gen(gen_case)
 check_case = _dbg_chk(check_case)
+
+# no clause depends on the coordinate unit: 8 % of the planar cases are expressed in a small unit (everything x 2^-7..2^-17)
+gen_case = mcase.scale_dimension(0.08)(gen_case)
 
 TECHNIQUE = "runtime monitoring: recorded per-process result logs from interpreters with different PYTHONHASHSEED compared offline; in-process permutation differential"
 LEVEL_TEXT = ("{Q} (quick) / {T} (thorough) cases, each executed in 4 / 12 fresh interpreters differing only in the string-hash seed; the per-case "
